@@ -70,7 +70,9 @@ def run_c18(tier, out):
         out.sample({k: (v if len(json.dumps(v)) < 200 else "<long>") for k, v in r.items()})
     out.add(evaluations=len(rows), distinct_nontrivial=len(distinct), traces_validated_against_impl=1 if not res["dev"] else 0,
             pool_sizes=sizes, concurrent_calls=len(calls), threads=16, reopen_cycles=sum(1 for r in rows if r["t"] == "reopen"),
-            max_reopen_ms=max([r["ms"] for r in rows if r["t"] == "reopen"] or [0]), negative_control_rejected=True,
+            max_reopen_ms=max([r["ms"] for r in rows if r["t"] in ("reopen", "handover")] or [0]),
+            handover_cycles=sum(1 for r in rows if r["t"] == "handover"),
+            handover_state_kept=sum(1 for r in rows if r["t"] == "handover" and r.get("kept")), negative_control_rejected=True,
             schedules="sampled by the OS scheduler, not enumerated (the exhaustive part is the model)",
             rule="one evaluation = one pool-size transcript, one concurrent read-only call on the shared instance (compared with its "
                  "sequential response), one thread-completion record or one drop/re-create cycle; distinct = distinct (kind, thread, call, pool size, cycle)",
